@@ -101,6 +101,16 @@ def adt_renames(prog):
     return out
 
 
+def signatures(prog):
+    """{function: "argc|ret type|arg types"} for the library's functions (closures excluded)"""
+    out = {}
+    for b in prog.bodies.values():
+        if b.unit != "svgdx-lib" or "{closure" in b.path:
+            continue
+        out[b.path] = "|".join([str(b.argc), b.local_ty(0) or ""] + [b.local_ty(i) or "" for i in range(1, b.argc + 1)])
+    return out
+
+
 def renames(prog, edges=None, funcs=None):
     """{new function: the reviewed function it is a renaming of}: a function that did not exist at review time, in the
     same module / impl as one that has vanished since, and called from exactly the (renamed) callers recorded for it"""
@@ -118,6 +128,8 @@ def renames(prog, edges=None, funcs=None):
     vanished = set(recorded) - funcs
     new = funcs - set(recorded)
     mapping = {}
+    sigs_then = d.get("signatures") or {}
+    sigs_now = signatures(prog)
     parent = lambda x: x.rsplit("::", 1)[0]  # noqa: E731
     changed = True
     while changed:
@@ -127,6 +139,11 @@ def renames(prog, edges=None, funcs=None):
             last = lambda x: x.rsplit("::", 1)[-1]  # noqa: E731
             # renamed in place (same module / impl) or moved under the same name (another module / impl)
             cands = [f for f in sorted(vanished - set(mapping.values())) if (parent(f) == parent(g) or last(f) == last(g)) and set(recorded[f]) == mapped_callers]
+            if len(cands) > 1 and sigs_now.get(g):
+                # several vanished functions with the same callers: the one with the same signature
+                same = [f for f in cands if sigs_then.get(f) == sigs_now[g]]
+                if len(same) == 1:
+                    cands = same
             if len(cands) == 1:
                 mapping[g] = cands[0]
                 changed = True
